@@ -819,7 +819,10 @@ class CallMixin:
             return ["ext:" + t[1]]
         if t[0] == "builtin":
             return ["py:" + t[1]]
-        return ["?:" + show(t)]
+        from . import dtable
+        key = "?:" + show(t)
+        dtable.ISINST_TERMS[key] = t        # so that a guard evaluation can resolve the class expression on a valuation
+        return [key]
 
     def bi_isinstance(self, a, cv, node):
         names = self.class_names_of(cv)
